@@ -191,9 +191,12 @@ class Menu:
         return '10.0.0.' in S(h[1])
 
     def query(self, qi):
-        host, addr, port = self.queries[qi - 1]
-        return (S(host), '' if addr < 0 else f'10.0.0.{addr}',
-                None if port == 0 else port)
+        host, addr, port, _kind = self.queries[qi - 1]
+        return (S(host), S(addr), None if port == 0 else port)
+
+    def host_kind(self, qi):
+        """'n' name, 'ip' literal, 'br' bracketed literal"""
+        return self.queries[qi - 1][3]
 
 
 # --------------------------------------------------------------------------
